@@ -387,11 +387,17 @@ func c16(args []string) int {
 	incr := cfgWith(func(c *scn.Config) { c.L0RetentionNS = 1; c.AutoVacuum = "INCREMENTAL" })
 	if h := histArg(args); h != nil {
 		hc.rep = ev.NewReporter("C16")
-		legal, probs, outcome, _, trace, err := hc.exec(prune, h)
+		cfg := prune
+		if os.Getenv("C16_CFG") == "keep" {
+			cfg = keep
+		}
+		legal, probs, outcome, _, trace, err := hc.exec(cfg, h)
 		fmt.Println(legal, probs, outcome, err, trace)
 		return 0
 	}
-	a := strings.Fields("W1 SW CMP:1 CMP:2 SNAP RETL0A:2 FOPEN FPOLL")
+	// W3 (a row with its own overflow pages) rather than W1: consecutive W1 rewrite the same leaf page, which
+	// would make a skipped or re-ordered TXID invisible in the follower's pages
+	a := strings.Fields("W3 SW CMP:1 CMP:2 SNAP RETL0A:2 FOPEN FPOLL")
 	aShrink := strings.Fields("W3 D IVAC VAC SW CMP:1 FOPEN FPOLL")
 	seeds := [][]string{strings.Fields("W1 SW"), strings.Fields("W1 SW W1 SW FOPEN W1 SW W1 SW"), strings.Fields("W3 W3 SW FOPEN D SW")}
 	layers := []Layer{
@@ -399,6 +405,15 @@ func c16(args []string) int {
 		{Name: "seeded/prune", Cfg: prune, Alphabet: a, Depth: d(3, 5), Seeds: seeds[1:2]},
 		{Name: "seeded/keep", Cfg: keep, Alphabet: a, Depth: d(3, 4), Seeds: seeds[1:2]},
 		{Name: "seeded/shrink", Cfg: incr, Alphabet: aShrink, Depth: d(3, 5), Seeds: seeds[2:]},
+		// The follower's position is reachable only through level 2, then level 1, then level 0: snapshot retention has
+		// cascaded away the level-1 file below it and level-0 retention the level-0 files (a gap bridged only in part per poll).
+		{Name: "seeded/keep/multi-level-bridge", Cfg: keep, Alphabet: strings.Fields("FPOLL W1 SW CMP:1"), Depth: d(2, 4), Seeds: [][]string{
+			// end shape: L0[8] L1[6-7] L2[1-5] L9[1-8], follower at 2
+			// (W3 writes its own overflow pages: a skipped TXID stays visible, whereas consecutive W1 rewrite the same leaf page)
+			strings.Fields("W1 SW W1 SW FOPEN W1 SW W1 SW W1 SW CMP:1 CMP:2 W3 SW W3 SW CMP:1 SNAP W1 SW FSNAP RET9A:1 RETL0A:7"),
+			// end shape: L0[5-6] L1[4-4] L2[1-3] L9[1-6], follower at 1
+			strings.Fields("W1 SW FOPEN W1 SW W1 SW CMP:1 CMP:2 W3 SW CMP:1 SNAP W1 SW W1 SW FSNAP RET9A:1 RETL0A:5"),
+		}},
 		{Name: "merged/prune", Cfg: prune, Alphabet: append(append([]string{}, a...), "W3", "D", "VAC", "S", "RET9A:1"), Depth: d(7, 10), Merge: true, MaxRuns: int64(d(1500, 80000)), Seeds: seeds[1:2]},
 	}
 	budget := ev.Budget(110*time.Second, 40*time.Minute)
